@@ -61,7 +61,11 @@ def domain_module(tier, seed, fast=False):
 def _pva(m, cfg, t, perm, with_rate=True):
     pd = m["pd"]
     kind, alt, rq, hq, vel, lever, rate = cfg["kind"], cfg["alt"], cfg["rq"], cfg["hq"], cfg["vel"], cfg["lever"], cfg["rate"]
-    vals = dict(lat=50.0 + cfg["k"] % 7, lon=30.0 - cfg["k"] % 5, alt=100.0 + cfg["k"] % 11,
+    # longitudes: ordinary, in the 0..360 convention, and within a metre of the +-180 meridian on either side (an injected error of
+    # a few metres east or west then crosses it; the library's own generators keep longitude continuous): seeded change C06_6
+    kk = cfg["k"]
+    lon = (30.0 - kk % 5) if kk % 8 not in (2, 4, 6) else {2: 200.0, 4: 179.99999, 6: -179.99999}[kk % 8]
+    vals = dict(lat=50.0 + cfg["k"] % 7, lon=lon, alt=100.0 + cfg["k"] % 11,
                 VN=float(vel[0]), VE=float(vel[1]), VD=float(vel[2]), roll=ANGLE[rq], pitch=0.0, heading=ANGLE[hq])
     labels = LLA + VEL + RPH
     if perm:
